@@ -182,6 +182,11 @@ def gen_c15(rnd, n, thorough=False):
                 sent = rnd.pick([full, full, full[:len(hb)], full[:rnd.randint(1, len(full) - 1)], hb[:16]])
                 announced = len(sent) if sent is full and rnd.chance(0.4) else rnd.pick([2 ** 62, 2 ** 63 - 1, 256 * 2 ** 20, 2 ** 31, 2 ** 32 + 5, len(sent) + 1, len(sent) + 4096, 10 ** 9])
                 add('hremote', 'hremote kind=%s len=%d body=%s' % (kind2, announced, hx(sent)))
+            # an honest, well-formed answer with fewer archives than the archive the user selected
+            for aid in rnd.sample([0, 1, 2, 5, -2, 2 ** 31], 3):
+                kind2 = rnd.pick(['view', 'viewraw'])
+                full = body if kind2 == 'view' else rawbody
+                add('hremote', 'hremote kind=%s len=%d body=%s archive=%d' % (kind2, len(full), hx(full), aid))
             cases.append({'id': 'c15-%d' % c, 'lines': lines, 'tags': tags})
             continue
         kind = rnd.pick(['decoders', 'decoders', 'file_truncated', 'file_garbage_slots', 'file_garbage_slots', 'file_garbage_slots', 'file_huge_header', 'file_random', 'file_bitflip', 'file_field', 'file_field', 'file_count_page', 'file_base', 'file_base'])
